@@ -62,15 +62,20 @@ class WasmGen:
     def gen_module(self):
         rng = self.rng
         funcs = []
+        # a third of the modules mix internal (not exported) functions with exported ones, in any position:
+        # what the emitted module exports under a name must still be that function
+        internal_p = rng.choice([0.0, 0.0, 0.3, 0.6])
         for i in range(self.nfuncs):
             np_ = rng.randint(0, 8) if rng.random() < 0.3 else rng.randint(0, 3)
             params = [(rng.choice([INT, FLOAT, INT, FLOAT, UINT]), "p%d" % k) for k in range(np_)]
             r = rng.random()
             if r < 0.1:
-                funcs.append(Func("%s%d" % (self.prefix, i), params, VOID, Block([Return(None)]), True))
+                funcs.append(Func("%s%d" % (self.prefix, i), params, VOID, Block([Return(None)]), rng.random() >= internal_p))
                 continue
             t = rng.choice([INT, FLOAT] + ([UINT] if any(ty == UINT for ty, _ in params) else []))
-            funcs.append(Func("%s%d" % (self.prefix, i), params, t, Block([Return(self.expr(t, params, 0))]), True))
+            funcs.append(Func("%s%d" % (self.prefix, i), params, t, Block([Return(self.expr(t, params, 0))]), rng.random() >= internal_p))
+        if not any(f.exported for f in funcs):
+            funcs[-1].exported = True
         return Module(funcs=funcs)
 
 
